@@ -2,6 +2,7 @@ from __future__ import annotations
 
 import builtins
 import re
+import unicodedata
 from email.message import Message
 from keyword import iskeyword
 from typing import Any
@@ -48,7 +49,8 @@ class ClassName(str):
 
 def sanitize(value: str) -> str:
     """Removes every character that isn't 0-9, A-Z, a-z, or a known delimiter"""
-    value = re.sub(rf"[^\w{DELIMITERS}]+", "", value)
+    # Python normalizes identifiers (NFKC) but not the names of module files, so normalize up front
+    value = re.sub(rf"[^\w{DELIMITERS}]+", "", unicodedata.normalize("NFKC", value))
     # `\w` also matches characters (e.g. "²" or "٣") which can never be part of a Python identifier
     return "".join(char for char in value if char in ". _-" or f"_{char}".isidentifier())
 
